@@ -196,6 +196,7 @@ func runC01(r *mon.Run) {
 	r.FloorFam("E-index", 20)
 	r.FloorFam("F-degenerate", 50)
 	r.FloorFam("G-preimage", 20)
+	r.FloorFam("F-list", 20)
 	r.FloorAccept("ref-honest", 10)
 }
 
@@ -414,6 +415,50 @@ func c01Set(x *c01ctx, rng *rand.Rand, D []int) {
 				}
 				d.C = refimpl.Challenge(x.ctx, x.non, []*big.Int{d.A, z}, false)
 				x.try("F-degenerate", fmt.Sprintf("%s forged without credential: A=%s, challenge for guessed commitment %s", desc, an, zn), d)
+			}
+		}
+	}
+
+	// F'. the same kind of fabricated proof riding in a list next to the honest proof of this session: its own challenge
+	// contribution cannot be computed (A is not invertible, or an index sits in both maps), its challenge and secret-key
+	// response are copied from the honest member. Whatever a list verifier does about the failing member, it must not
+	// report the fabricated values as verified.
+	if honest.AResponses[0] != nil {
+		for _, kind := range []string{"A=N", "A=0", "index in both maps"} {
+			f := &gabi.ProofD{C: cp(honest.C), A: cp(pk.N), EResponse: randBig(rng, int(pk.Params.LeCommit)), VResponse: randBig(rng, int(pk.Params.LvCommit)),
+				AResponses: map[int]*big.Int{0: cp(honest.AResponses[0])}, ADisclosed: map[int]*big.Int{}}
+			for i := 1; i < n; i++ {
+				f.ADisclosed[i] = bi(int64(7000 + i))
+			}
+			switch kind {
+			case "A=0":
+				f.A = bi(0)
+			case "index in both maps":
+				f.A = cp(honest.A)
+				if n > 1 {
+					f.AResponses[1] = randBig(rng, int(pk.Params.LmCommit))
+				}
+			}
+			if n < 2 {
+				continue
+			}
+			for _, order := range []string{"forged first", "forged last"} {
+				lst := gabi.ProofList{cloneD(f), cloneD(honest)}
+				if order == "forged last" {
+					lst = gabi.ProofList{cloneD(honest), cloneD(f)}
+				}
+				d2 := fmt.Sprintf("%s fabricated proof (%s) in a list with the honest one, %s", desc, kind, order)
+				r.Distinct("F-list", d2, x.key.Name)
+				ok, pv, stack := verifyList(lst, []*gabikeys.PublicKey{pk, pk}, x.ctx, x.non, false, nil)
+				r.Eval("F-list", outcome(ok, pv))
+				if pv != nil {
+					r.PanicSeen(mon.PanicSite(stack))
+				}
+				if ok {
+					for _, m := range lst {
+						c01Post(r, cred, m.(*gabi.ProofD), "F-list", d2+" via ProofList.Verify", x.ctx, x.non)
+					}
+				}
 			}
 		}
 	}
